@@ -76,6 +76,9 @@ def do_op(world, op, ctx):
         kw = {"verbose": False}
         if "n_inner" in op:
             kw["n_inner_samples"] = op["n_inner"]
+            if op.get("n_inner_type"):
+                import numpy as _np
+                kw["n_inner_samples"] = getattr(_np, op["n_inner_type"])(op["n_inner"])
         fn = e.explain_many if kind == "many" else e.explain_many_original
         return fn(xs, ys, **kw)
     if kind == "learn":
